@@ -343,7 +343,7 @@ fn mutate(base: &[u8], seed: u64, n: u8) -> Vec<u8> {
 // ---------------------------------------------------------------------------------------------
 // crafted corpus: one archive per hazard class × codec
 
-pub const N_HAZARDS: u32 = 32;
+pub const N_HAZARDS: u32 = 36;
 
 fn one_tile_parts(ic: u8) -> Parts {
     let h = SpecHeader { ic, tc: 1, tt: 1, clustered: 1, n_addressed: 1, n_entries: 1, n_contents: 1, ..SpecHeader::default() };
@@ -462,6 +462,12 @@ pub fn crafted(id: u32) -> (String, Vec<u8>) {
         }
         29 => ("entry count 2^60 and root length 2^62", join(&p, &dir_blob(ic, &Cols { count: 1 << 60, ..Cols::of(&p.root) }), &p.meta, &p.leaves, &p.data, |h| h.root_length = 1 << 62)),
         30 => ("entry count 2^40 and root length 2^64-1", join(&p, &dir_blob(ic, &Cols { count: 1 << 40, ..Cols::of(&p.root) }), &p.meta, &p.leaves, &p.data, |h| h.root_length = u64::MAX)),
+        32..=35 => {
+            // an absurd entry count with more than 2^16 tile-id deltas really present (then the
+            // stream ends): whatever a parser does once it has seen 2^16 genuine entries
+            let (count, present) = [(1u64 << 60, 65_537usize), (1 << 63, 70_000), (u64::MAX, 65_536), (1 << 40, 131_073)][(hz - 32) as usize];
+            ("absurd entry count with more than 2^16 tile-id deltas present", with_root(Cols { count, deltas: vec![1; present], runs: vec![], lens: vec![], offs: vec![] }))
+        }
         31 => {
             // leaf pointer declaring a 2^32-1 byte leaf whose own entry count is 2^31
             let leaf = dir_blob(ic, &Cols { count: 1 << 31, ..Cols::of(&p.root) });
@@ -711,6 +717,38 @@ fn battery(img: &[u8], seed: u64, ctx: &mut Ctx) -> V<()> {
         let mut out = SimDisk::plain(Vec::new());
         let _ = sut::guard("to_writer", || pm.to_writer(&mut out))?;
         ctx.absorb(&out);
+    }
+    // the reader is handed in at a position P > 0 (the bytes sit behind a preamble): the header is
+    // read at P, every section at its absolute offset. Only when what the reader then sees stays
+    // inside the claim (measured on the stream with the header copied to its front), and for one
+    // input in four
+    if r.below(4) == 0 {
+        let p = *r.pick(&[1usize, 7, 127, 4096]);
+        let mut s = vec![0xAAu8; p];
+        s.extend_from_slice(img);
+        let sections_clear = sh.as_ref().is_none_or(|h| [(h.root_offset, h.root_length), (h.leaf_offset, h.leaf_length), (h.meta_offset, h.meta_length)].iter().all(|(o, l)| *l == 0 || *o >= 127));
+        let inside = if sh.is_some() && s.len() >= 127 && img.len() >= 127 {
+            let mut e = s.clone();
+            e[..127].copy_from_slice(&img[..127]);
+            sections_clear && measure(&e)? == Claim::In
+        } else {
+            true
+        };
+        if inside {
+            ctx.bump("opens_from_a_reader_positioned_behind_a_preamble", 1);
+            let mut cur = std::io::Cursor::new(&s[..]);
+            cur.set_position(p as u64);
+            if let Ok(mut pm) = sut::guard("from_reader (positioned)", || PMTiles::from_reader(cur))? {
+                let _ = sut::guard("num_tiles", || pm.num_tiles())?;
+                for id in [0u64, 3, u64::MAX] {
+                    let _ = sut::guard("get_tile_by_id", || pm.get_tile_by_id(id).map(|o| o.map(|b| b.len())))?;
+                }
+                let mut out = SimDisk::plain(Vec::new());
+                let _ = sut::guard("to_writer", || pm.to_writer(&mut out))?;
+            }
+            let pol = Policy { rd: Xfer::Random(4096), wr: Xfer::Full, pend: Pend { rate: 20, burst: 2, inline: 50, ctl: true }, seed: r.next_u64() };
+            let _ = sut::guard_async("from_async_reader (positioned)", PMTiles::from_async_reader(SimDisk::new(s.clone(), &pol).at(p as u64)))?.map(|p| p.num_tiles());
+        }
     }
     // partial opens
     let first = sh.as_ref().map_or(5, |h| h.n_addressed);
